@@ -9,6 +9,18 @@ BASELINE_CMD = ('cd /repo && /venv/bin/python -m pytest -ra -q -p no:cacheprovid
 
 # id -> (technique, level text, level note, design ref)
 CHECKS = {
+    'C01': (
+        'explicit-state BFS over bookkeeping-operation sequences on real SpectralInformation objects against an exact '
+        'rational (S,A,N) reference model; plus exhaustive receiver-recomputation histories',
+        'Every sequence of up to 4 (quick) / 5 (thorough) bookkeeping operations (gain, loss, per-channel loss, ASE and '
+        'NLI additions, band split/merge, comb addition, channel selection, split+noise on one band) from several initial '
+        'spectra is executed on the real SpectralInformation; every reached state is compared with an exact rational '
+        'model and checked for signal+ASE+NLI == total, shares in [0,1] and 1/GSNR = 1/OSNR_ASE + 1/SNR_NLI. Every '
+        'element crossing of recorded real propagations and every sequence of <= 3 receiver recomputations is checked '
+        'for the same identities.',
+        'The reference model uses the implementation\'s float operands in exact arithmetic; magnitudes outside the '
+        'operation menu are not covered; propagation part trusts the recorder (harness-side wrapping of __call__).',
+        'DESIGN.md 3/C01'),
     'C14': (
         'explicit-state BFS over request histories on real OMS/Bitmap objects, set-of-slots reference model',
         'Every history of up to 3 (quick) / 4 (thorough) spectrum requests drawn from a menu of request shapes x paths '
